@@ -1619,7 +1619,8 @@ impl Sup {
             }
         }
         // results of calls on objects outside the sandbox are environment data: keep only ok / errno
-        let rv = if ci.sb || ret < 0 { Self::ret_value(ret) } else { json!(0) };
+        // (and of readlink, whose length depends on where the sandbox lives when the target is absolute)
+        let rv = if (ci.sb && ci.name != "readlink" && ci.name != "readlinkat") || ret < 0 { Self::ret_value(ret) } else { json!(0) };
         self.log_event(lid, role, &ci, site, &rv, tag);
         true
     }
